@@ -592,6 +592,8 @@ class FileSystemProvider(Provider):                     # pylint: disable=too-ma
     def download(self, oid, file_like):
         with self._api():
             fpath = self._oid_to_fpath(oid)
+            if not os.path.exists(fpath):
+                raise ex.CloudFileNotFoundError(oid)
             with open(fpath, "rb") as src:
                 shutil.copyfileobj(src, file_like)
 
